@@ -40,18 +40,25 @@ func RenameBlankIdentifierWith(sig *types.Signature, prefix string) *types.Signa
 
 func hasBlankIdentifier(tup *types.Tuple) bool {
 	for i := 0; i < tup.Len(); i++ {
-		if tup.At(i).Name() == blackIdentifier {
+		if cannotForward(tup.At(i).Name()) {
 			return true
 		}
 	}
 	return false
 }
 
+// cannotForward reports whether a parameter with this name cannot be passed on by a generated wrapper:
+// it is blank or unnamed, or it would shadow the function parameter (f) or the error parameter (err)
+// that the generated wrappers declare themselves.
+func cannotForward(name string) bool {
+	return name == blackIdentifier || name == "" || name == "f" || name == "err"
+}
+
 func rename(tup *types.Tuple, prefix string) *types.Tuple {
 	vars := make([]*types.Var, tup.Len())
 	for i := range vars {
 		varValue := tup.At(i)
-		if varValue.Name() == blackIdentifier || strings.HasPrefix(varValue.Name(), prefix) {
+		if cannotForward(varValue.Name()) || strings.HasPrefix(varValue.Name(), prefix) {
 			varValue = types.NewVar(varValue.Pos(), varValue.Pkg(), prefix+strconv.Itoa(i), varValue.Type())
 		}
 		vars[i] = varValue
